@@ -170,7 +170,7 @@ _U9_MUT = [r"ParsedPacket::(insert_rr|insertion_offset|rrcount_inc|rrcount_dec|r
            r"trait RdataIterable::(set_rr_ttl|set_rr_ip)$",
            r"<DNSIterable for (Response|Question)Iterator>::(set_offset|set_offset_next|invalidate|recompute_rr|recompute_sections|raw_mut|parsed_packet_mut)$",
            r"RRIterator::recompute$", r"Compress::raw_name_len$",
-           r"spec/(mutate|pfmut|pfmut_ops|pfmut_q|walk|iter_mut|pfbmap|pfedns|clients_u9|pfpacket|pfedit|pfedit_names|locality|uncompress)\.rs"]
+           r"spec/(mutate|pfmut|pfmut_ops|pfmut_q|pfmut_f|walk|iter_mut|pfbmap|pfedns|clients_u9|pfpacket|pfedit|pfedit_names|locality|uncompress)\.rs"]
 _U9_ASSUME = ["DNSIterable::rdata_slice_mut (a two-line `&mut packet[name_end..]` accessor) is taken on trust with its obvious contract: Verus keeps no length facts for a mutable sub-slice",
               "slice_copy_into / be_write_* shims stand for `D[a..b].copy_from_slice(S)` / BigEndian::write_* (rewrite table R10, R26) with the std semantics as their contract",
               "Compress::uncompress / uncompress_with_previous_offset / check_compressed_name / DNSSector::parse enter unit U9 by their contracts, which are verified in units U6 / U1",
@@ -184,7 +184,7 @@ PROPS.update({
         "witness": ("c08", 6000),
         "level": "proof", "design_ref": "DESIGN.md section 5 C08",
         "assumptions": _U9_ASSUME,
-        "level_text": "every mutator (insert_rr, set_raw_name, delete, resize_rr, DNSIterable::uncompress, set_rr_ttl, set_rr_ip, rrcount_inc/dec, recompute) is proved to leave the object in an EXACTLY specified state (spec/mutate.rs: inserted, named, deleted, resized, after_unc) and the cursor on the specified record. For the three record sections the specified state is proved to satisfy the object invariant again: lemma_edit_wf (spec/pfmut.rs) shows that replacing / removing / adding one record of a pointer-free packet at a record boundary yields a pointer-free packet whose decode equals every offset, the EDNS summary and the cache of the specified object (fin.wf() && pf_packet), for insert (lemma_inserted_wf), delete (lemma_deleted_wf) and rename (lemma_named_wf); theorem_c05 + lemma_bmap_rec + lemma_unc_keeps_edns carry this through the in-place decompression of a compressed packet; the verified clients client_set_name / client_delete / client_insert / client_delete_all_answers compose the real trait methods with these lemmas end to end: `mut_ready(cursor)` in, `cursor.wf() && pf_packet && !maybe_compressed` out ('An iterator that changed a record's name still designates that record'). NOT proved by contracts: acceptance by the parser where it depends on the policy clauses (open known finding), deleting / inserting the question and edits of the OPT record (open known findings), rename_with_raw_names (C07). The differential replay parses afresh after every step of random operation sequences",
+        "level_text": "every mutator (insert_rr, set_raw_name, delete, resize_rr, DNSIterable::uncompress, set_rr_ttl, set_rr_ip, rrcount_inc/dec, recompute) is proved to leave the object in an EXACTLY specified state (spec/mutate.rs: inserted, named, deleted, resized, after_unc) and the cursor on the specified record. For the three record sections the specified state is proved to satisfy the object invariant again: lemma_edit_wf (spec/pfmut.rs) shows that replacing / removing / adding one record of a pointer-free packet at a record boundary yields a pointer-free packet whose decode equals every offset, the EDNS summary and the cache of the specified object (fin.wf() && pf_packet), for insert (lemma_inserted_wf), delete (lemma_deleted_wf) and rename (lemma_named_wf); theorem_c05 + lemma_bmap_rec + lemma_unc_keeps_edns carry this through the in-place decompression of a compressed packet; lemma_hdr_wf / lemma_field_wf (spec/pfmut_f.rs) do the same for the in-place writes of the header, TTL and address setters on a pointer-free packet; the verified clients client_set_name / client_set_qname / client_delete / client_insert / client_set_ttl / client_set_ip / client_set_header / client_walk_delete compose the real methods with these lemmas end to end: `mut_ready(cursor)` in, `cursor.wf() && pf_packet && !maybe_compressed` out ('An iterator that changed a record's name still designates that record'). NOT proved by contracts: acceptance by the parser where it depends on the policy clauses (open known finding), deleting / inserting the question and edits of the OPT record (open known findings), rename_with_raw_names (C07). The differential replay parses afresh after every step of random operation sequences",
         "technique": "Verus exact-state postconditions on the extracted mutators (trait default methods verified once against abstract cursor specs) + edit lemmas re-establishing the object invariant + verified client compositions; policy clauses by differential replay (stated)",
     },
     "C09": {
@@ -209,7 +209,7 @@ PROPS.update({
         "title": "Deleting records while iterating is safe, exact and terminates",
         "units": ["U9"],
         "cone": [r"trait TypedIterable::(delete|resize_rr|current_section)$", r"trait DNSIterable::(set_offset|set_offset_next|invalidate|is_tombstone|recompute_rr|recompute_sections|raw_mut|parsed_packet_mut)$",
-                 r"ResponseIterator::(next|next_including_opt|maybe_skip_opt_section)$", r"QuestionIterator::next$", r"ParsedPacket::(rrcount_dec|into_iter_)", r"RRIterator::", r"spec/(mutate|pfmut|pfmut_ops|pfmut_q|walk|iter_mut|pfbmap|pfedns|clients_u9|iter|reader)\.rs"],
+                 r"ResponseIterator::(next|next_including_opt|maybe_skip_opt_section)$", r"QuestionIterator::next$", r"ParsedPacket::(rrcount_dec|into_iter_)", r"RRIterator::", r"spec/(mutate|pfmut|pfmut_ops|pfmut_q|pfmut_f|walk|iter_mut|pfbmap|pfedns|clients_u9|iter|reader)\.rs"],
         "witness": ("c11", 6000),
         "level": "proof", "design_ref": "DESIGN.md section 5 C11",
         "assumptions": _U9_ASSUME + ["the walk itself (a client loop calling next() and delete()) is not a function of the repository: it is verified as a client written in the repository's iteration idiom (delete-everything walk); the arbitrary-subset walk is exercised by the differential replay only"],
